@@ -56,6 +56,13 @@ def gen(rng, tier):
                 ("expand", "E", "${A}", {"A": "${B}", "B": "${A}"}), ("expand", "I", "x\\${CFLAGS}y ${in}", {"CFLAGS": "-O2"}),
                 ("expand", "D", "x\\${CFLAGS}y ${relpath}", {"relpath": "d"}), ("expand", "E", "a}b${A}", {"A": "1"}),
                 ("expand", "E", "\\${X} ${A}", {"A": "1"}), ("expand", "E", "${A}}${A}", {"A": "1"})]
+    # chains of variables defined by the next one: up to 100 nested references expand, deeper ones are refused with a
+    # typed error (before fix 913125a a chain of some thousand overflowed the stack)
+    for n in (1, 5, 98, 99, 100, 101, 150, 3000) + tuple(rng.randint(90, 110) for _ in range(4)):
+        chain = {"V%d" % i: rng.choice(["${V%d}", "a${V%d}b"]) % (i + 1) for i in range(n)}; chain["V%d" % n] = "end"
+        for pol in "EIM":
+            directed.append(("expand", pol, "x ${V0} y", chain))
+        directed.append(("expand_eval", "E", "${V0}", chain))
     for cmd, pol, f, m in directed:
         cases.append((req_expand(cmd, pol, f, m), "directed"))
     for s in ["$(1+2)", "é$(1+2)", "$é(1)", "$$(1+2)", "a $(1+$(1+1)) b", "$(", "$(1", "())$(1+1)", "$(1+1))(", "日$(2*3)日", "$($(1+1)", "x$$(y$(1+1)"]:
@@ -67,7 +74,7 @@ def norm(reply):
     if t[:2] == ["err", "expr"]: return "err expr"
     if t[:2] == ["err", "other"]:
         msg = unhexs(t[2]) if len(t) > 2 else ""
-        for key, tag in (("unclosed brace", "err unclosed"), ("cycle involving", "err cycle"), ("missing variable", "err missing")):
+        for key, tag in (("unclosed brace", "err unclosed"), ("cycle involving", "err cycle"), ("missing variable", "err missing"), ("levels deep at variable", "err toodeep")):
             if key in msg: return tag
         return "err other"
     return reply
@@ -123,6 +130,20 @@ def run(rep, tier, seed, rng):
     # sources, outs, task commands), against the model that uses the proved expander
     from . import gen_common
     ecases = gen_common.load_cases(rng, tier, 120, 2000, focus="env")
+    # expansion errors in task commands, rule fields and env values are ERRORS of the run (typed, with exit status 1):
+    # a cycle, an unclosed brace, a bad expression, nesting beyond the depth limit — never a silently shortened command
+    import copy
+    from .. import directed as _directed
+    bad_cmds = [["echo one", "flash --port ${CYC_A}", "echo three"], ["echo ${unclosed", "echo two"], ["echo $(1 +)", "echo two"],
+                ["echo ${DEEP0}"], ["echo fine", "echo \\${kept} $(2 * 21)"]]
+    deep = {"DEEP%d" % i: "${DEEP%d}" % (i + 1) for i in range(120)}; deep["DEEP120"] = "end"
+    for bc in bad_cmds:
+        f = copy.deepcopy(_directed.base([], [{"name": "app", "sources": ["main.c"]}]))
+        ctx = f["laze-project.yml"][0]["contexts"][0]
+        ctx["env"].update({"CYC_A": "${CYC_B}", "CYC_B": "${CYC_A}"}, **deep)
+        where = rng.choice(["context", "app"])
+        (ctx if where == "context" else f["laze-project.yml"][0]["apps"][0])["tasks"] = {"flash": {"cmd": bc, "build": False}}
+        ecases.append((f, {}))
     lz, dr, results = gen_common.run_cases(ecases)
     ne2e = 0
     for c, r in zip(ecases, results):
